@@ -255,7 +255,11 @@ impl Property for C20 {
                 return o;
             }
         }
-        match guarded(|| deserialize_witnesscalc_graph(std::io::Cursor::new(&bytes))) {
+        // the container is read back through a reader that hands out 1, 7 or 33 bytes per call, or
+        // everything at once (a file behind a buffered reader returns short counts at buffer boundaries)
+        crate::gens::set_io_style((case_hash(case) % 4) as u8);
+        o.label(format!("io-style/{}", crate::gens::io_style()));
+        match guarded(|| deserialize_witnesscalc_graph(crate::gens::rd(&bytes))) {
             Ok(Ok((n2, s2, i2))) => {
                 if n2 != b.nodes {
                     let k = (0..b.nodes.len()).find(|k| n2.get(*k) != b.nodes.get(*k)).unwrap_or(0);
